@@ -1087,7 +1087,7 @@ Section E2E.
     cbn. f_equal. apply IH. now injection Hl.
   Qed.
 
-  Inductive lclass := LText | LInt | LBool | LFloat | LTime.
+  Inductive lclass := LText | LInt | LBool | LFloat | LTime | LDelta.
 
   Section Drill.
     Variable pm : list (str * kind).
@@ -1096,6 +1096,7 @@ Section E2E.
     Variable ord : list str -> list str.
     Hypothesis Hord : forall l x, In x (ord l) <-> In x l.
     Variable lk : str -> lclass.        (* what a directory level holds *)
+    Variable show_delta : D -> str.     (* str(pd.Timedelta): the canonical text of a timedelta (external, wave 3) *)
 
     Definition dnames : list str := map dir_name (seq 0 (length names)).
     Definition rv_drill (v : value) : value := parse_guess (show false v).
@@ -1113,6 +1114,9 @@ Section E2E.
          invert str()): a hypothesis about the external conversions, per value *)
       | LFloat => exists f, v = VFloat f /\ parse_guess (show_float f) = VFloat f
       | LTime => exists t, v = VTime t /\ parse_guess (show_time_str t) = VTime t
+      (* a TEXT level whose texts are timedeltas in their canonical spelling ("1 days 00:00:00"): no earlier guess converts
+         them and pd.Timedelta() does - they come back as timedeltas (the drill layout has no types: "the guessed value") *)
+      | LDelta => exists d, v = VStr (show_delta d) /\ parse_guess (show_delta d) = VDelta d
       end.
 
     Lemma rv_drill_cases n v : Pv_drill n v ->
@@ -1122,6 +1126,7 @@ Section E2E.
       | LBool => exists b, v = VBool b /\ rv_drill v = VBool b
       | LFloat => exists f, v = VFloat f /\ rv_drill v = VFloat f
       | LTime => exists t, v = VTime t /\ rv_drill v = VTime t
+      | LDelta => exists d, v = VStr (show_delta d) /\ rv_drill v = VDelta d
       end.
     Proof.
       intros [_ [_ H]]. unfold rv_drill. destruct (lk n).
@@ -1131,6 +1136,7 @@ Section E2E.
       - destruct H as [b ->]. exists b. split; [reflexivity|]. destruct b; reflexivity.
       - destruct H as [f [-> Hf]]. exists f. split; [reflexivity|exact Hf].
       - destruct H as [t [-> Ht]]. exists t. split; [reflexivity|exact Ht].
+      - destruct H as [d [-> Hd]]. exists d. split; [reflexivity|exact Hd].
     Qed.
 
     Lemma dnames_nodup : NoDup dnames.
@@ -1180,7 +1186,7 @@ Section E2E.
     Proof.
       apply (e2e false [] names part_name dnames dnames_nodup Pv_drill rv_drill (fun n => lk n = LText)).
       - intros n v _. reflexivity.
-      - intros n v Hv Hs. pose proof (rv_drill_cases n v Hv) as Hc. destruct (lk n); [reflexivity| | | |];
+      - intros n v Hv Hs. pose proof (rv_drill_cases n v Hv) as Hc. destruct (lk n); [reflexivity| | | | |];
           destruct Hc as [z [_ E]]; rewrite E in Hs; discriminate.
       - intros n v Ht Hv. pose proof (rv_drill_cases n v Hv) as Hc. rewrite Ht in Hc.
         destruct Hc as [s [-> E]]. rewrite E. reflexivity.
@@ -1192,6 +1198,7 @@ Section E2E.
         + destruct Hc as [b [_ E]], Hc' as [b' [_ E']]. rewrite E, E' in *. cbn in H. apply Bool.eqb_prop in H. now subst.
         + destruct Hc as [f [_ E]], Hc' as [f' [_ E']]. rewrite E, E' in *. cbn in H. destruct (feqb_spec f f'); [now subst|discriminate].
         + destruct Hc as [t [_ E]], Hc' as [t' [_ E']]. rewrite E, E' in *. cbn in H. destruct (teqb_spec t t'); [now subst|discriminate].
+        + destruct Hc as [d [Ev E]], Hc' as [d' [Ev' E']]. rewrite E, E' in *. cbn in H. destruct (deqb_spec d d'); [now subst|discriminate].
       - intros key Hk. destruct (drill_paths key O Hk) as [_ [H2 [_ [_ [_ [_ [_ H8]]]]]]].
         unfold Partition.path_hits. cbn [snd]. rewrite H2, H8. reflexivity.
       - intros key Hk. destruct (drill_paths key O Hk) as [H1 [H2 [_ [_ [_ [H6 _]]]]]]. split; [exact H1|]. now rewrite H2.
@@ -1208,6 +1215,7 @@ Section E2E.
         + destruct Hc as [b0 [-> _]], Hc' as [b' [-> _]]. cbn in H. apply Bool.eqb_prop in H. now subst.
         + destruct Hc as [f [-> _]], Hc' as [f' [-> _]]. cbn in H. destruct (feqb_spec f f'); [now subst|discriminate].
         + destruct Hc as [t [-> _]], Hc' as [t' [-> _]]. cbn in H. destruct (teqb_spec t t'); [now subst|discriminate].
+        + destruct Hc as [d [-> _]], Hc' as [d' [-> _]]. cbn in H. destruct (str_eqb_spec (show_delta d) (show_delta d')) as [E|]; [now rewrite E|discriminate].
       - reflexivity.
     Qed.
 
@@ -1224,6 +1232,7 @@ Section E2E.
       + destruct Hc as [b0 [-> _]], Hc' as [b' [-> _]]. cbn in H. apply Bool.eqb_prop in H. now subst.
       + destruct Hc as [f [-> _]], Hc' as [f' [-> _]]. cbn in H. destruct (feqb_spec f f'); [now subst|discriminate].
       + destruct Hc as [t [-> _]], Hc' as [t' [-> _]]. cbn in H. destruct (teqb_spec t t'); [now subst|discriminate].
+      + destruct Hc as [d [-> _]], Hc' as [d' [-> _]]. cbn in H. destruct (str_eqb_spec (show_delta d) (show_delta d')) as [E|]; [now rewrite E|discriminate].
     Qed.
   End Drill.
 End E2E.
